@@ -96,8 +96,12 @@ def gen(seed, tier):
                 ops.append(['txn_oids', r.randint(1, 3), r.randint(0, 3),
                             r.choice(('commit', 'abort', 'abort',
                                       'abortV'))])
-        elif y < 0.94:
+        elif y < 0.92:
             ops.append(['reopen'])
+        elif y < 0.94:
+            # the process dies (no close: the index on disk is the one of
+            # the last clean close) and the storage is opened again
+            ops.append(['crash'])
         else:
             ops.append(['pack'])
     return {'arm': 'hist', 'kind': kind, 'ops': ops,
@@ -302,6 +306,16 @@ def run_hist(case):
                     tr.issued = []
                     tr.issued_set = set()
                     tr.trace.append('reopen')
+            elif k == 'crash':
+                if kind == 'file':
+                    from .. import simfs
+                    snap = sim.fs.snapshot()
+                    sim.fs = simfs.SimFS.from_snapshot(snap, sim,
+                                                       case['bufsize'])
+                    st = dbh.make_storage(sim, kind, {'pack_gc': False})
+                    tr.issued = []
+                    tr.issued_set = set()
+                    tr.trace.append('crash')
             elif k == 'pack':
                 from ZODB.serialize import referencesf
                 try:
